@@ -88,7 +88,7 @@ RULE_A = ("one case = one simulated run of the analyser: (program, option set, r
 def replay_payload(prop, job, signature, note=""):
     j = {k: v for k, v in job.items() if not k.startswith("_")}
     return {"property": prop, "harness": "simharness", "signature": signature, "job": j, "note": note,
-            "program": job.get("_prog")}
+            "program": job.get("_prog"), "variant": job.get("_variant")}
 
 
 def confirm(binary, job, pred, times=2):
@@ -148,6 +148,7 @@ def report_violation(rep, binary, prop, job, signature, pred, name, minimise=Tru
     elif minimise:
         note = "minimisation budget of this run exhausted; reported unminimised"
     final["_prog"] = job.get("_prog")
+    final["_variant"] = job.get("_variant")
     rep.violation(signature, replay_payload(prop, final, signature, note), name)
 
 
@@ -168,20 +169,68 @@ def mappar_jobs(seed, n):
     return jobs
 
 
+def ref_job_of(job):
+    rj = {k: v for k, v in job.items() if not k.startswith("_")}
+    rj["params"] = dict(sysa.base_params(), max_steps=job["params"].get("max_steps", sysa.MAX_STEPS))
+    return rj
+
+
+def observe(prop, binary, bdir, job, payload=None):
+    """Signatures visible when job is executed in a fresh process (used by --replay)."""
+    r = run_one(binary, {k: v for k, v in job.items() if not k.startswith("_")}, timeout=900)
+    if prop in ("C20", "C17"):
+        sigs = signatures_of(prop, job, r, bdir)
+        if prop == "C20" and job.get("options", {}).get("report-summaries") and r and not r.get("died"):
+            rj = ref_job_of(job)
+            rj["params"].update({"starve_task": 0, "starve_from": 0, "starve_len": 100000000, "range_yield_pct": 100})
+            rr = run_one(binary, rj, timeout=900)
+            want = set((((rr or {}).get("reports") or {}).get("summaries") or {}).get("headers") or [])
+            have = set((((r or {}).get("reports") or {}).get("summaries") or {}).get("headers") or [])
+            if not want <= have:
+                sigs.append("summaries-report-incomplete-at-return")
+        return sigs
+    r0 = run_one(binary, ref_job_of(job), timeout=900)
+    if r is None or r0 is None or sysa.classify_hard(r) or sysa.classify_hard(r0):
+        return ["no verdict: %s / %s" % (sysa.classify_hard(r), sysa.classify_hard(r0))]
+    if prop == "C06":
+        variant = (payload or {}).get("variant", "?")
+        if r.get("died") or r.get("panic") or (r.get("sim") or {}).get("aborted"):
+            return ["crash only under some schedule/order" if not r0.get("panic") else "crash under the zero tape too"]
+        d = verdict_diff(sysa.result_key(r0), sysa.result_key(r))
+        return [c06_signature(variant, d, r0, r)] if d else []
+    if prop == "C05":
+        base = ref_job_of(job)
+        base["options"] = {"log-level": 1}
+        rb = run_one(binary, base, timeout=900)
+        a, b = set((rb or {}).get("flows") or []), set(r.get("flows") or [])
+        k = job.get("options", {}).get("max-alarms", 0)
+        if k:
+            out = []
+            if not b <= a:
+                out.append("max-alarms result is not a subset of the unlimited result")
+            if len(b) > k:
+                out.append("max-alarms=%d reported more than k pairs" % k)
+            if a and not b:
+                out.append("max-alarms result empty although the unlimited result is not")
+            return out
+        if a != b:
+            return ["verdict changes with options (%s flows)" % ("missing" if a - b else "extra")]
+    return []
+
+
 def run_replay(prop, path):
     """Re-executes a replay file in a fresh process and prints what it shows."""
     payload = json.load(open(path))
     bdir = build()
-    binary = os.path.join(bdir, "simharness")
+    binary = os.path.join(bdir, "simharness" if prop == "C20" else "simharness-norace")
     job = payload["job"]
-    job["events"] = False
-    r = run_one(binary, job, timeout=600)
-    sigs = signatures_of(prop, job, r, bdir)
+    sigs = observe(prop, binary, bdir, job, payload)
     print("replay of %s" % path)
     print("expected signature: %s" % payload.get("signature"))
     for s in sigs:
         print("observed: %s" % s)
-    if payload.get("signature") in sigs:
+    want = payload.get("signature", "")
+    if any(s == want or root_of(s) == root_of(want) or (prop in ("C05", "C06") and s.split(" [")[0].split(" (")[0] == want.split(" [")[0].split(" (")[0]) for s in sigs):
         print("VIOLATION property=%s replay=%s" % (prop, path))
         return 1
     print("the recorded violation did not reproduce on the current tree")
@@ -256,7 +305,7 @@ def check_c20(tier, seed):
     # (a) MapParallel alone
     na = 3000 if tier == "quick" else 60000
     jobs = mappar_jobs(seed, na)
-    res = run_jobs(binary, jobs, timeout=120, progress=20000)
+    res = run_jobs(binary, jobs, timeout=120, progress=20000, fresh=False)
     for j, r in zip(jobs, res):
         hard = sysa.classify_hard(r)
         if hard and not (r or {}).get("died"):
@@ -265,7 +314,7 @@ def check_c20(tier, seed):
             continue
         st.add(j, r)
         for sig in signatures_of("C20", j, r, bdir):
-            report_violation(rep, binary, "C20", j, sig, lambda rr, s=sig, jj=j: s in signatures_of("C20", jj, rr, bdir),
+            report_violation(rep, binary, "C20", j, sig, lambda rr, cand=None, s=sig, jj=j: s in signatures_of("C20", cand or jj, rr, bdir),
                              "mappar-%d" % j["id"])
     mappar_runs = st.runs
     # (b) the whole analyser with report options
@@ -333,11 +382,13 @@ def check_c20(tier, seed):
             if not want <= have:
                 sigs.append("summaries-report-incomplete-at-return")
         for sig in sigs:
-            def pred(rr, s=sig, jj=j):
-                got = signatures_of("C20", jj, rr, bdir)
+            def pred(rr, cand=None, s=sig, jj=j):
+                cj = dict(cand or jj)
+                cj.setdefault("_prog", jj["_prog"] + ("" if cand is None else "#" + str(hash(json.dumps(cand.get("files", {}), sort_keys=True)))))
+                got = signatures_of("C20", cj, rr, bdir)
                 if s == "summaries-report-incomplete-at-return":
                     have = set((((rr or {}).get("reports") or {}).get("summaries") or {}).get("headers") or [])
-                    return not set(reference_headers(jj)) <= have
+                    return not set(reference_headers(cj)) <= have
                 return s in got
             report_violation(rep, binary, "C20", j, sig, pred, "analyser-%d" % j["id"])
     cov = st.coverage(RULE_A, {"mapparallel_runs": mappar_runs, "analyser_runs": st.runs - mappar_runs,
@@ -347,4 +398,316 @@ def check_c20(tier, seed):
     write_evidence("C20", tier, seed, cov, time.time() - t0, len(rep.violations),
                    ["the race detector's happens-before model; simrt's models of channel/WaitGroup/Mutex enabledness",
                     "generated programs are import-free (plus %d std-importing corpus programs in the thorough tier)" % 6])
+    return rep.finish()
+
+
+# =============================================================== shared exploration for C05 / C06 / C17
+
+VARIANTS_C06 = [
+    ("taint-eager", "taint", {}),
+    ("taint-ondemand", "taint", {"summarize-on-demand": True}),
+    ("backtrace", "backtrace", {}),
+    ("taint-escape", "taint", {"use-escape-analysis": True}),
+    ("taint-fieldsens", "taint", {"field-sensitive": True}),
+    ("backtrace-ondemand", "backtrace", {"summarize-on-demand": True}),
+]
+
+
+def verdict_diff(ref, got):
+    """Returns a description of how two verdicts differ, or None."""
+    for k in ("flows", "escapes", "traces"):
+        a, b = set(ref[k]), set(got[k])
+        if a != b:
+            miss, extra = sorted(a - b), sorted(b - a)
+            return "%s differ: missing %s extra %s" % (k, miss[:3], extra[:3])
+    if ref["err"] != got["err"]:
+        return "error status differs: reference %s, run %s" % (ref["err"], got["err"])
+    return None
+
+
+def diff_class(d):
+    """Coarse class of a verdict difference (what is missing or extra, not which positions)."""
+    if d is None:
+        return None
+    kind = d.split(" ")[0]
+    if "error status" in d:
+        return "error-status"
+    m = "missing" if "missing []" not in d else ""
+    e = "extra" if "extra []" not in d else ""
+    return "%s-%s" % (kind, "+".join(x for x in (m, e) if x))
+
+
+MISSING_ESCAPE = "missing escape for"
+
+
+def c06_signature(variant, d, ref, r):
+    """Signature of a verdict difference. One narrow class is separated out because it is a recorded finding:
+    the flows and trace endpoints are equal, and the difference is confined to the escape set and/or to the presence
+    of the visitor's 'missing escape ... in context' error (analysis/taint/dataflow_visitor.go, manageEscapeContexts),
+    where which escape contexts exist depends on the visit order."""
+    cls = diff_class(d)
+    missing = MISSING_ESCAPE in (ref.get("err") or "") or MISSING_ESCAPE in (r.get("err") or "")
+    if (cls.startswith("escapes-") or cls == "error-status") and missing \
+            and set(ref.get("flows") or []) == set(r.get("flows") or []) \
+            and set(ref.get("traces") or []) == set(r.get("traces") or []):
+        return KNOWN_C06
+    return "result depends on schedule/order [%s] %s" % (variant, cls)
+
+
+KNOWN_C06 = ("use-escape-analysis: escape set / 'missing escape ... in context' error depends on visit order "
+             "(flows equal; at least one run returns that error)")
+
+
+def explore(binary, bdir, tier, seed, progs, variants, nseeds, st, rep, prop, on_result, timeout=240,
+            extra_opts=None, max_steps=None):
+    """Runs, for every (program, variant): one reference run (zero tape, 1 worker, canonical map order) and nseeds
+    swarm runs. Calls on_result(job, result, ref_result) for every swarm run that produced a verdict."""
+    rng = Rng(seed ^ 0xA11CE)
+    jobs, meta = [], []
+    for prog in progs:
+        for vname, kind, opts in variants:
+            o = {"log-level": 1}
+            o.update(opts)
+            if extra_opts:
+                o.update(extra_opts)
+            rp = sysa.base_params()
+            if max_steps:
+                rp["max_steps"] = max_steps
+            rj = sysa.make_job(len(jobs), kind, prog, o, rp)
+            rj["_prog"], rj["_variant"], rj["_ref"] = prog["name"], vname, True
+            ref_index = len(jobs)
+            jobs.append(rj)
+            meta.append(None)
+            for si in range(nseeds):
+                p = sysa.swarm_params(rng)
+                if max_steps:
+                    p["max_steps"] = max_steps
+                j = sysa.make_job(len(jobs), kind, prog, o, p)
+                j["_prog"], j["_variant"] = prog["name"], vname
+                jobs.append(j)
+                meta.append(ref_index)
+    res = run_jobs(binary, jobs, timeout=timeout, progress=2000)
+    dropped = collections.Counter()
+    for j, r, ri in zip(jobs, res, meta):
+        hard = sysa.classify_hard(r)
+        if hard and not (r or {}).get("died"):
+            st.hard[hard.split(":")[0]] += 1
+            rep.inconclusive.append("run %d (%s/%s): %s" % (j["id"], j["_prog"], j["_variant"], hard))
+            continue
+        st.add(j, r)
+        if ri is None:
+            continue
+        ref = res[ri]
+        if sysa.classify_hard(ref) or (ref or {}).get("died") or ((ref or {}).get("sim") or {}).get("aborted"):
+            dropped["reference run without verdict"] += 1
+            continue
+        on_result(j, r, ref)
+    return jobs, res, dropped
+
+
+def check_c06(tier, seed):
+    t0 = time.time()
+    rep = Report("C06")
+    bdir = build()
+    binary = os.path.join(bdir, "simharness-norace")
+    st = Stats()
+    nprog, nseeds = (30, 5) if tier == "quick" else (400, 12)
+    progs = [sysa.gen_program(seed + 6, i) for i in range(nprog)]
+    observations = collections.Counter()
+
+    def on_result(j, r, ref):
+        if ref.get("panic"):
+            # also panics on the calm reference schedule: a C07 matter, not a determinism one
+            observations["program panics under the zero tape too (not a C06 matter): " + sysa.short_panic(ref["panic"])[:120]] += 1
+            return
+        sig = None
+        if r.get("died"):
+            sig = "crash only under some schedule/order: process died: " + sysa.short_panic(r.get("stderr", ""))[:120]
+        elif (r.get("sim") or {}).get("aborted"):
+            sim = r["sim"]
+            if sim.get("panics"):
+                sig = "crash only under some schedule/order: " + sysa.short_panic(sim["panics"][0].get("value", "") + "\n" + sim["panics"][0].get("stack", ""))
+            elif sim.get("deadlock"):
+                sig = "deadlock only under some schedule"
+        elif r.get("panic"):
+            sig = "crash only under some schedule/order: " + sysa.short_panic(r["panic"])
+        else:
+            d = verdict_diff(sysa.result_key(ref), sysa.result_key(r))
+            if d:
+                sig = c06_signature(j["_variant"], d, ref, r)
+        if not sig:
+            return
+        def pred(rr, cand=None, s=sig, jj=j):
+            if rr is None or sysa.classify_hard(rr):
+                return False
+            refjob = {k: v for k, v in (cand or jj).items() if not k.startswith("_")}
+            refjob["params"] = dict(sysa.base_params(), max_steps=refjob["params"].get("max_steps", sysa.MAX_STEPS))
+            r0 = run_one(binary, refjob, timeout=600)
+            if r0 is None or sysa.classify_hard(r0) or r0.get("died") or r0.get("panic") or (r0.get("sim") or {}).get("aborted"):
+                return False
+            if s.startswith("crash") or s.startswith("deadlock"):
+                return bool(rr.get("died") or rr.get("panic") or (rr.get("sim") or {}).get("aborted"))
+            if rr.get("died") or (rr.get("sim") or {}).get("aborted") or rr.get("panic"):
+                return False
+            d = verdict_diff(sysa.result_key(r0), sysa.result_key(rr))
+            return d is not None and c06_signature(jj["_variant"], d, r0, rr) == s
+        report_violation(rep, binary, "C06", j, sig, pred, "run-%d" % j["id"])
+
+    variants = VARIANTS_C06 if tier == "thorough" else VARIANTS_C06[:4]
+    jobs, res, dropped = explore(binary, bdir, tier, seed, progs, variants, nseeds, st, rep, "C06", on_result)
+    corpus_runs = 0
+    if tier == "thorough":
+        cprogs = [sysa.corpus_program(n) for n, _ in sysa.CORPUS]
+        n0 = st.runs
+        explore(binary, bdir, tier, seed + 1, cprogs, [VARIANTS_C06[0], VARIANTS_C06[1]], 3, st, rep, "C06", on_result,
+                timeout=1500, max_steps=20000000)
+        corpus_runs = st.runs - n0
+    nonempty = sum(1 for j, r in zip(jobs, res) if j.get("_ref") and r and (r.get("flows") or r.get("traces")))
+    cov = st.coverage(RULE_A, {"programs": nprog, "variants": [v[0] for v in variants], "seeds_per_variant": nseeds,
+                               "reference_runs_with_nonempty_verdict": nonempty, "corpus_runs": corpus_runs,
+                               "dropped": dict(dropped), "observations": dict(observations),
+                               "runs_per_hour": int(st.runs / max(1e-9, time.time() - t0) * 3600), "seeds": [seed]})
+    write_evidence("C06", tier, seed, cov, time.time() - t0, len(rep.violations),
+                   ["the reference is the run with the zero tape (1 worker, run-to-block schedule, canonical map order)",
+                    "map keys whose canonical descriptions tie keep their native relative order (counted in canonical_key_ties)",
+                    "internal/pointer map iterations are not permuted in this tier"])
+    return rep.finish()
+
+
+def check_c17(tier, seed):
+    t0 = time.time()
+    rep = Report("C17")
+    bdir = build()
+    binary = os.path.join(bdir, "simharness-norace")
+    st = Stats()
+    nprog, nseeds = (30, 4) if tier == "quick" else (400, 10)
+    progs = [sysa.gen_program(seed + 17, i) for i in range(nprog)]
+    checks = collections.Counter()
+    sched_sensitive = collections.Counter()
+
+    def look(j, r):
+        for k, v in (r.get("c17_checks") or {}).items():
+            checks[k] += v
+            if k.startswith("global-"):
+                sched_sensitive[k] += v
+        for v in r.get("c17") or []:
+            sig = "c17 " + c17_class(v)
+
+            def pred(rr, cand=None, s=sig):
+                return any("c17 " + c17_class(x) == s for x in (rr or {}).get("c17") or [])
+            clean = dict(j)
+            report_violation(rep, binary, "C17", clean, sig, pred, "run-%d" % j["id"])
+
+    def on_result(j, r, ref):
+        if not r.get("died") and not (r.get("sim") or {}).get("aborted"):
+            look(j, r)
+    jobs, res, dropped = explore(binary, bdir, tier, seed, progs, VARIANTS_C06[:4] if tier == "quick" else VARIANTS_C06,
+                                 nseeds, st, rep, "C17", on_result)
+    for j, r in zip(jobs, res):
+        if j.get("_ref") and r and not sysa.classify_hard(r) and not r.get("died"):
+            look(j, r)
+    cov = st.coverage(RULE_A, {"invariant_facts_checked": dict(checks), "schedule_sensitive_checks": dict(sched_sensitive),
+                               "monitor_instants": ["when the analysis returns (eager and on-demand graphs, taint and backtrace)"],
+                               "dropped": dict(dropped), "runs_per_hour": int(st.runs / max(1e-9, time.time() - t0) * 3600),
+                               "seeds": [seed]})
+    write_evidence("C17", tier, seed, cov, time.time() - t0, len(rep.violations),
+                   ["invariants are evaluated on the graph the run returns; intermediate states between on-demand builds are not observed",
+                    "only the global read/write sets are filled concurrently; the rest of the invariant is structural and rides on the simulated runs"])
+    return rep.finish()
+
+
+def check_c05(tier, seed):
+    t0 = time.time()
+    rep = Report("C05")
+    bdir = build()
+    binary = os.path.join(bdir, "simharness-norace")
+    st = Stats()
+    nprog, nseeds = (24, 2) if tier == "quick" else (300, 4)
+    rng = Rng(seed ^ 0xC05)
+    progs = [sysa.gen_program(seed + 5, i) for i in range(nprog)]
+    sim_decided = [  # options that add goroutines, file handles or logger lock traffic
+        {"report-summaries": True}, {"report-coverage": True}, {"report-paths": True}, {"report-no-callee-sites": True},
+        {"report-summaries": True, "report-coverage": True, "report-paths": True, "report-no-callee-sites": True},
+        {"log-level": 5}, {"log-level": 3, "report-summaries": True},
+    ]
+    ride_along = [
+        {"summarize-on-demand": True}, {"pkg-filter": "command-line-arguments"}, {"pkg-filter": "^nomatch$"},
+        {"pkg-filter": "main", "summarize-on-demand": True}, {"summarize-on-demand": True, "report-summaries": True},
+    ]
+    alarms = [{"max-alarms": 1}, {"max-alarms": 2}, {"max-alarms": 1, "summarize-on-demand": True}]
+    jobs, meta = [], []
+    counts = collections.Counter()
+    for prog in progs:
+        for kind in ("taint",):
+            o = {"log-level": 1}
+            rj = sysa.make_job(len(jobs), kind, prog, o, sysa.base_params())
+            rj["_prog"], rj["_variant"], rj["_ref"] = prog["name"], "base", True
+            ri = len(jobs)
+            jobs.append(rj)
+            meta.append(None)
+            for group, optsets in (("sim_decided", sim_decided), ("ride_along", ride_along), ("max_alarms", alarms)):
+                for os_ in optsets:
+                    for si in range(nseeds if group != "ride_along" else max(1, nseeds // 2)):
+                        o2 = {"log-level": 1}
+                        o2.update(os_)
+                        p = sysa.swarm_params(rng)
+                        j = sysa.make_job(len(jobs), kind, prog, o2, p)
+                        j["_prog"], j["_variant"], j["_group"] = prog["name"], json.dumps(os_, sort_keys=True), group
+                        jobs.append(j)
+                        meta.append(ri)
+    res = run_jobs(binary, jobs, timeout=240, progress=2000)
+    observations = collections.Counter()
+    for j, r, ri in zip(jobs, res, meta):
+        hard = sysa.classify_hard(r)
+        if hard and not (r or {}).get("died"):
+            st.hard[hard.split(":")[0]] += 1
+            rep.inconclusive.append("run %d (%s/%s): %s" % (j["id"], j["_prog"], j["_variant"], hard))
+            continue
+        st.add(j, r)
+        if ri is None:
+            continue
+        ref = res[ri]
+        if sysa.classify_hard(ref) or ref.get("died") or ref.get("panic") or (ref.get("sim") or {}).get("aborted"):
+            observations["reference without verdict"] += 1
+            continue
+        if r.get("died") or r.get("panic") or (r.get("sim") or {}).get("aborted"):
+            # crashes are C06/C20 material; here they only mean "no verdict under this option set"
+            observations["variant run without verdict (crash/abort)"] += 1
+            continue
+        counts[j["_group"]] += 1
+        a, b = set(ref.get("flows") or []), set(r.get("flows") or [])
+        sig = None
+        if j["_group"] == "max_alarms":
+            k = json.loads(j["_variant"])["max-alarms"]
+            if not b <= a:
+                sig = "max-alarms result is not a subset of the unlimited result"
+            elif len(b) > k:
+                sig = "max-alarms=%d reported more than k pairs" % k
+            elif a and not b:
+                sig = "max-alarms result empty although the unlimited result is not"
+        elif a != b:
+            what = "missing" if a - b else "extra"
+            sig = "verdict changes with options %s (%s flows)" % (j["_variant"], what)
+        if not sig:
+            continue
+
+        def pred(rr, cand=None, s=sig, jj=j, aa=a):
+            if rr is None or sysa.classify_hard(rr) or rr.get("died") or rr.get("panic"):
+                return False
+            bb = set(rr.get("flows") or [])
+            if jj["_group"] == "max_alarms":
+                k = json.loads(jj["_variant"])["max-alarms"]
+                return (not bb <= aa) or len(bb) > k or (bool(aa) and not bb)
+            return aa != bb
+        # the program text is part of the replay; shrinking it would change the reference, so only tape/params shrink
+        report_violation(rep, binary, "C05", j, sig, pred, "run-%d" % j["id"], minimise=False)
+    nonempty = sum(1 for j, r in zip(jobs, res) if j.get("_ref") and r and r.get("flows"))
+    cov = st.coverage(RULE_A, {"sim_decided": counts["sim_decided"], "ride_along": counts["ride_along"],
+                               "max_alarms": counts["max_alarms"], "programs": nprog,
+                               "reference_runs_with_nonempty_verdict": nonempty, "observations": dict(observations),
+                               "runs_per_hour": int(st.runs / max(1e-9, time.time() - t0) * 3600), "seeds": [seed]})
+    write_evidence("C05", tier, seed, cov, time.time() - t0, len(rep.violations),
+                   ["sim_decided = option sets that add goroutines/files/logger traffic, compared under adversarial schedules; "
+                    "ride_along = summarize-on-demand / pkg-filter variants compared by the same oracle inside the simulator (cross-configuration differential, not schedule search)",
+                    "single-package generated programs make pkg-filter nearly vacuous (command-line-arguments is always summarised)"])
     return rep.finish()
